@@ -245,13 +245,23 @@ pub fn expr_add_many<T: Iterator<Item=TokenTree>>(span: Span, mut exprs: T) -> O
     Some(delimited(tokens))
 }
 
-// makes (size_of<ty>() * value)
-pub fn expr_size_of_scale(ty: &syn::Path, value: &TokenTree, size: Size) -> TokenTree {
+// makes (size_of<ty>() * value), as an i64
+pub fn expr_size_of_scale(ty: &syn::Path, value: &TokenTree) -> TokenTree {
+    let span = value.span();
+
+    delimited(quote_spanned! { span=>
+        (::std::mem::size_of::<#ty>() as i64) * (#value as i64)
+    })
+}
+
+// converts an i64 expression to the type of a displacement of the given size, this fails
+// at runtime if the value does not fit instead of encoding a truncated displacement
+pub fn expr_checked_cast(value: &TokenTree, size: Size) -> TokenTree {
     let span = value.span();
     let size = size.as_literal();
 
     delimited(quote_spanned! { span=>
-        (::std::mem::size_of::<#ty>() as #size) * #value
+        <#size as ::core::convert::TryFrom<i64>>::try_from(#value).expect("Type mapped displacement does not fit in the displacement size")
     })
 }
 
@@ -295,15 +305,14 @@ pub fn expr_mask_shift_inverted_and(orig: &TokenTree, expr: &TokenTree, mask: u6
 }
 
 /// returns (offset_of!(path, attr) as size)
-pub fn expr_offset_of(path: &syn::Path, attr: &syn::Ident, size: Size) -> TokenTree {
-    // generate a P<Expr> that resolves into the offset of an attribute to a type.
+pub fn expr_offset_of(path: &syn::Path, attr: &syn::Ident) -> TokenTree {
+    // generate a P<Expr> that resolves into the offset of an attribute to a type, as an i64.
     // this is somewhat ridiculously complex because we can't expand macros here
 
     let span = path.span();
-    let size = size.as_literal();
 
     delimited(quote_spanned! { span=>
-        ::std::mem::offset_of!(#path, #attr) as #size
+        ::std::mem::offset_of!(#path, #attr) as i64
     })
 }
 
